@@ -621,6 +621,18 @@ impl Rt {
             });
         }
 
+        if self.types.iter().any(|old_ty| {
+            old_ty.name.scope == scope && old_ty.name.ident == ty.ident
+        }) {
+            return Err(RegistrationError {
+                message: format!(
+                    "Item `{}` already exists in this scope",
+                    ty.ident
+                ),
+                location: ty.location.clone(),
+            });
+        }
+
         self.type_checker
             .declare_runtime_type(scope, ty.ident, ty.type_id, ty.doc.clone())
             .map_err(|e| RegistrationError {
